@@ -217,6 +217,10 @@ def script(draw, p, depth=0):
             it = {'g': draw(script(p, depth + 1)), 'r': draw(st.integers(1, p.rep_max)) if draw(st.floats(0, 1)) < p.rep else None}
         elif r > 1 - p.text_only:
             it = {'n': None, 'm': [], 'x': draw(text_value(p)), 'r': None, 'sc': False}
+            if getattr(p, 'text_only_fields', 0) and draw(st.floats(0, 1)) < p.text_only_fields:
+                # a text-only item whose text carries a field keeps its children (they are printed in place of the first field)
+                it['x'] = [draw(st.sampled_from(['pre', 'a b', '[', '(x'])), ['f', draw(st.integers(0, 2)), None], draw(st.sampled_from(['post', ']', ' y)']))]
+                it['kids'] = True
         else:
             it = draw(element(p))
         sc.append(it)
@@ -224,6 +228,8 @@ def script(draw, p, depth=0):
             ops = ['+', '+', '^', '^^', '^^^']
             if 'g' not in it and (it['n'] or it['m']) and not it['sc']:
                 ops += ['>', '>', '>', '>']
+            elif 'g' not in it and it.get('kids'):
+                ops += ['>', '>', '>']
             elif 'g' not in it and it['sc'] and getattr(p, 'child_after_sc', True):
                 # `br/>b`: the element after `>` still nests inside the one before it (the self-closing mark then has no effect)
                 ops += ['>']
